@@ -2,6 +2,7 @@ package syntax
 
 import (
 	"log"
+	"maps"
 	"sort"
 	"strings"
 
@@ -399,6 +400,12 @@ func (i *instantiator) doExpr(context *instance, expr *Expr) *Expr {
 
 	ret := *expr
 	ret.Model = i.m
+	if ret.CmdArgs != nil && ret.CmdArgs.ArgRefs != nil {
+		// Each instance needs its own ArgRefs, they are updated to point to instantiated symbols.
+		args := *ret.CmdArgs
+		args.ArgRefs = maps.Clone(args.ArgRefs)
+		ret.CmdArgs = &args
+	}
 	if len(ret.Sub) == 0 {
 		return &ret
 	}
@@ -479,6 +486,21 @@ func Instantiate(m *Model) error {
 		curr := inst.instances[i]
 		curr.val = inst.doExpr(curr, m.Nonterms[curr.nonterm].Value)
 		curr.suffix = inst.suffix(curr.args)
+
+		// Semantic actions refer to the instantiated symbols.
+		rules := []*Expr{curr.val}
+		if curr.val.Kind == Choice {
+			rules = curr.val.Sub
+		}
+		for _, rule := range rules {
+			refs := make(map[int]int)
+			rule.ForEach(Reference, func(ref *Expr) {
+				if ref.Pos > 0 {
+					refs[ref.Pos] = ref.Symbol
+				}
+			})
+			updateArgRefs(rule, refs)
+		}
 	}
 
 	// Sort the instances and move them over into the grammar.
